@@ -547,7 +547,7 @@ ASSUMPTIONS = [
 EXPLANATION = "Whole-function execution of _expand_vectors on enumerated shapes with recording attribute values; index lemma in z3."
 MANIFEST = {
     "category": "proof",
-    "text": "_expand_vectors is executed on the real source for enumerated array shapes (1-D, 2-D non-square, nested component arrays, derivatives, delayed states) with recording attribute values: the generated scalars are named with 1-based indices in row-major order, each carries exactly the element of every attribute at ITS index (matrix, nested list or scalar), outputs and delay states are replaced in place in the same order, and the substitution matrix is the transposed column-major reshape of the row-major scalar list, which the index lemma (z3, all sizes) shows puts scalar (i,j) at (i,j). A bounded replay compares expanded and unexpanded residuals and attributes numerically. Generator.get_derivative on a 2-D variable (C10's contract, parametrised): the derivative symbol has the variable's rows x columns and Modelica shape.",
+    "text": "_expand_vectors is executed on the real source for enumerated array shapes (1-D, 2-D non-square, nested component arrays, derivatives, delayed states) with recording attribute values: the generated scalars are named with 1-based indices in row-major order, each carries exactly the element of every attribute at ITS index (matrix, nested list or scalar), outputs and delay states are replaced in place in the same order, and the substitution matrix is the transposed column-major reshape of the row-major scalar list, which the index lemma (z3, all sizes) shows puts scalar (i,j) at (i,j). A bounded replay compares expanded and unexpanded residuals and attributes numerically. Generator.get_derivative on a 2-D variable (C10's contract, parametrised): the derivative symbol has the variable's rows x columns and Modelica shape. A matrix-valued equation becomes its entries in the order of the unexpanded residual (column by column); Generator.get_symbol leaves the derivative table alone.",
     "note": "Shapes enumerated; CasADi reshape/indexing layout assumed; regex naming executed concretely on enumerated names (bounded).",
     "technique": "contract-based deductive verification: whole-function symbolic execution with recording stubs, integer index lemma in z3",
 }
